@@ -427,6 +427,26 @@ func (x *Exec) leafCount(t types.Type) int64 {
 // (the contents of that map), slice-typed expression followed by [:] (all its elements).
 func (x *Exec) havocRegion(st *State, sc *Scope, e Expr) {
 	c := x.c
+	if call, ok := e.(ECall); ok && call.Fun == "pointee" && len(call.Args) == 1 {
+		// modifies pointee(v): v is an interface{} parameter that holds a pointer (the decoders' "into" argument); the
+		// whole object it points to gets arbitrary contents. The pointee's type is read off the call site.
+		v := sc.eval(call.Args[0])
+		for _, a := range x.curCallArgs {
+			mi, ok := a.(*ssa.MakeInterface)
+			if !ok || x.curCallFrame == nil || x.curCallFrame.env[a] != v.T {
+				continue
+			}
+			pt, ok := mi.X.Type().Underlying().(*types.Pointer)
+			if !ok {
+				continue
+			}
+			x.havocObject(st, x.leafSorts(pt.Elem(), nil), x.curCallFrame.val(mi.X))
+			return
+		}
+		// not resolvable at this call site: be conservative
+		x.havocAllHeap(st)
+		return
+	}
 	if sl, ok := e.(ESlice); ok {
 		v := sc.eval(sl.X)
 		u, ok := v.Ty.Underlying().(*types.Slice)
